@@ -80,36 +80,30 @@ func (c *ThrottlingChecker) DoCheck(_ base.StatNode, batchCount uint32, threshol
 	// The interval between two requests (in nanoseconds).
 	intervalNs := int64(math.Ceil(float64(batchCount) / threshold * float64(c.statIntervalNs)))
 
-	vhook.Yield("th.load1")
-	loadedLastPassedTime := atomic.LoadInt64(&c.lastPassedTime)
-	// Expected pass time of this request.
-	expectedTime := loadedLastPassedTime + intervalNs
-	if expectedTime <= curNano {
-		vhook.Yield("th.cas")
-		if swapped := atomic.CompareAndSwapInt64(&c.lastPassedTime, loadedLastPassedTime, curNano); swapped {
-			// nil means pass
-			return nil
+	// lastPassedTime is only ever updated by a compare-and-swap from the value the decision was
+	// based on, so concurrent callers can neither share a pass time nor observe a reservation
+	// that is rolled back afterwards.
+	for {
+		vhook.Yield("th.load1")
+		loadedLastPassedTime := atomic.LoadInt64(&c.lastPassedTime)
+		// Expected pass time of this request.
+		expectedTime := loadedLastPassedTime + intervalNs
+		if expectedTime <= curNano {
+			vhook.Yield("th.cas")
+			if swapped := atomic.CompareAndSwapInt64(&c.lastPassedTime, loadedLastPassedTime, curNano); swapped {
+				// nil means pass
+				return nil
+			}
+			continue
 		}
-	}
 
-	vhook.Yield("th.load2")
-	estimatedQueueingDuration := atomic.LoadInt64(&c.lastPassedTime) + intervalNs - curNano
-	if estimatedQueueingDuration > c.maxQueueingTimeNs {
-		return base.NewTokenResultBlockedWithCause(base.BlockTypeFlow, BlockMsgQueueing, rule, nil)
-	}
-
-	vhook.Yield("th.add")
-	oldTime := atomic.AddInt64(&c.lastPassedTime, intervalNs)
-	estimatedQueueingDuration = oldTime - curNano
-	if estimatedQueueingDuration > c.maxQueueingTimeNs {
-		// Subtract the interval.
-		vhook.Yield("th.sub")
-		atomic.AddInt64(&c.lastPassedTime, -intervalNs)
-		return base.NewTokenResultBlockedWithCause(base.BlockTypeFlow, BlockMsgQueueing, rule, nil)
-	}
-	if estimatedQueueingDuration > 0 {
-		return base.NewTokenResultShouldWait(time.Duration(estimatedQueueingDuration))
-	} else {
-		return base.NewTokenResultShouldWait(0)
+		estimatedQueueingDuration := expectedTime - curNano
+		if estimatedQueueingDuration > c.maxQueueingTimeNs {
+			return base.NewTokenResultBlockedWithCause(base.BlockTypeFlow, BlockMsgQueueing, rule, nil)
+		}
+		vhook.Yield("th.cas")
+		if swapped := atomic.CompareAndSwapInt64(&c.lastPassedTime, loadedLastPassedTime, expectedTime); swapped {
+			return base.NewTokenResultShouldWait(time.Duration(estimatedQueueingDuration))
+		}
 	}
 }
